@@ -310,6 +310,29 @@ def rewrite(term, fn):
     return new if r is None else r
 
 
+def merge_class_tests(term):
+    """`isinstance(x, A) or isinstance(x, B)` is the same test as `isinstance(x, (A, B))` (same for issubclass): adjacent
+    disjuncts on one subject are merged so that rules see one canonical spelling."""
+    if term[0] != "boolop" or term[1] != "or":
+        return term
+    out = []
+    for v in term[2]:
+        if out and _class_test(v) and _class_test(out[-1]) and v[1] == out[-1][1] and v[2][0] == out[-1][2][0]:
+            prev = out.pop()
+            out.append(("call", v[1], (v[2][0], ("tuple", _classes(prev[2][1]) + _classes(v[2][1]))), ()))
+        else:
+            out.append(v)
+    return out[0] if len(out) == 1 else ("boolop", "or", tuple(out))
+
+
+def _class_test(v):
+    return v[0] == "call" and v[1][0] == "ref" and v[1][1] in ("builtins.isinstance", "builtins.issubclass") and len(v[2]) == 2 and not v[3]
+
+
+def _classes(t):
+    return tuple(t[1]) if t[0] == "tuple" else (t,)
+
+
 def fold_bool(term):
     """Constant-fold boolean structure (after a substitution made some atoms constant)."""
 
